@@ -135,6 +135,58 @@ def roundtrip(res, model, net, tag, case):
     ol.cleanup_scratch()
 
 
+def write_after_edit(res, net, rng, tag, case):
+    """a network that was already written once is edited (a reaction removed, re-indexed, a coefficient / window / type / source
+    changed on the objects) and written again: the second file holds the network as it is NOW"""
+    d = ol.scratch_dir()
+    with quiet():
+        net.write(d / "before.naunet", "naunet")
+    edits = []
+    if len(net.reaction_list) > 1 and rng.random() < 0.7:
+        k = rng.randrange(len(net.reaction_list))
+        net.remove_reaction(k)
+        edits.append(f"remove_reaction({k})")
+    if rng.random() < 0.7:
+        net.reindex()
+        edits.append("reindex()")
+    for r in rng.sample(net.reaction_list, rng.randint(1, min(3, len(net.reaction_list)))):
+        what = rng.choice(["alpha", "gamma", "window", "type", "source"])
+        if what == "alpha":
+            r.alpha = (r.alpha or 1.0) * 3.0
+        elif what == "gamma":
+            r.gamma = r.gamma + 12.5
+        elif what == "window":
+            r.temp_min, r.temp_max = 20.0, 450.0
+        elif what == "type":
+            r.reaction_type = ReactionType.GAS_PHOTON if r.reaction_type != ReactionType.GAS_PHOTON else ReactionType.GAS_TWOBODY
+        else:
+            r.source = "edited"
+        edits.append(what)
+    now = [describe(r) for r in net.reaction_list]
+    with quiet():
+        net.write(d / "after.naunet", "naunet")
+    c2 = dict(case, edits=edits)
+    try:
+        reset_globals()
+        with quiet():
+            back = [describe(r) for r in Network(filelist=str(d / "after.naunet"), fileformats="naunet").reaction_list]
+    except Exception as e:
+        res.count("write-after-edit: unreadable (reported by the plain round trip)")
+        ol.cleanup_scratch()
+        return
+    if len(back) != len(now):
+        res.violation("oracle", f"{tag}: written again after {edits}: {len(now)} reactions held, {len(back)} read back", c2)
+    for k, (o, b) in enumerate(zip(now, back)):
+        want = dict(o, a=float(f"{o['a']:10.3e}"), b=float(f"{o['b']:10.3e}"), c=float(f"{o['c']:10.3e}"),
+                    tmin=float(f"{o['tmin']:9.2f}"), tmax=float(f"{o['tmax']:9.2f}"))
+        if want != b:
+            diff = {key: (want[key], b[key]) for key in want if want[key] != b[key]}
+            res.violation("oracle", f"{tag}: written again after {edits}: reaction {k} of the file differs from the network as it is now: {diff}", c2)
+            break
+    res.count("write-after-edit networks")
+    ol.cleanup_scratch()
+
+
 def native_twin(r):
     """the reaction as the native format carries it: written, then read back as a native Reaction"""
     line = f"{r:naunet}"
@@ -242,7 +294,7 @@ def run(res, info):
     model = fw.Model() if info["ok"] else None
     res.rule = ("networks built through the API (every ReactionType, 1-3 reactants with repeats and pseudo reactants, 0-5 products, long names, "
                 "signed/zero coefficients, four window shapes, indices incl. -1, source tags) and read from generated files of the five other "
-                "formats: write -> read -> write -> read; plus every gas-phase (format, subtype) and grain (model, process) re-read as native")
+                "formats: write -> read -> write -> read; API networks edited after a first write (removal, reindex, coefficient / window / type / source) and written again; plus every gas-phase (format, subtype) and grain (model, process) re-read as native")
     res.assumptions = ["reaction types are members of ReactionType (an unknown UMIST code cannot be written at all)",
                        "Leeds ice names (G prefix) are not ice under the native reader's default symbols: such rates are refused or compared as given"]
     n = 60 if res.tier == "quick" else 1500
@@ -250,6 +302,8 @@ def run(res, info):
         net = gen_api_network(rng)
         case = {"kind": "c18", "source": "api", "reactions": [f"{r:naunet}" for r in net.reaction_list]}
         roundtrip(res, model, net, f"api network {i}", case)
+        if net.reaction_list and not any(v.get("case") is case for v in res.violations):
+            write_after_edit(res, net, rng, f"api network {i}", case)
         res.count("api networks")
         res.case(("c18", "api", i, tuple(case["reactions"][:2])), sample={"first": case["reactions"][:1]}, nontrivial=True)
     for fmt in ("kida", "umist", "leeds", "uclchem", "krome"):
